@@ -167,6 +167,10 @@ def shard_main(pid, specfile, outfile):
     with open(specfile) as fh:
         spec = json.load(fh)
     ctx = ShardContext(spec)
+    from . import ambient
+    level = ambient.install(spec)
+    if level is not None:
+        ctx.feature('ambient_verbosity_' + level)
     try:
         if spec.get('__replay__'):
             mod.replay(unjson(spec['case']), ctx)
@@ -310,6 +314,10 @@ def run_check(pid, tier, seed):
     unlisted = [v for v in merged['violations'] if v['key'] is None or v['key'] not in known]
     n_unlisted = sum(c for k, c in merged['vcounts'].items() if k not in known)
     missed = [] if merged['inconclusive'] else mod.gates(merged, tier)
+    if not merged['inconclusive'] and len(specs) >= 3:
+        for lvl in ('normal', 'debug', 'quiet'):
+            if merged['features'].get('ambient_verbosity_' + lvl, 0) < 1:
+                missed.append('no shard ran at %s verbosity' % lvl)
     if n_unlisted:
         verdict = 'violated'
     elif merged['inconclusive'] or missed:
